@@ -102,7 +102,7 @@ impl Profile {
             components: false,
             arrays: true,
             ops: OpsLevel::Trivial,
-            name_pool: vec!["x", "y", "x_0", "x_1", "i", "y_0"],
+            name_pool: vec!["x", "y", "x_0", "x_1", "i", "y_0", "x0", "x1"],
             shadow: true,
             max_depth: 4,
             max_stmts: 14,
